@@ -348,9 +348,9 @@ def plan(pid, tr, sd):
                 [("bind_null", 0), ("bind_value", 0, 0), ("bind_existing", 0, 1)],
             ]
             if tr == "thorough":
-                hs += [[("bind_existing", k, 1), ("bind_foreign", k + 1, 0), ("alloc_until_growth",)] for k in range(3)]
+                hs += [[("bind_existing", k, 1), ("bind_foreign", k + 1, 0), ("alloc_until_growth",)] for k in range(2)]
             for k, h in enumerate(hs):
-                for pl in ([pls[0], pls[4]] if tr == "quick" else [pls[0], pls[4], pls[5], pls[1]]):
+                for pl in ([pls[0], pls[4]] if tr == "quick" else [pls[0], pls[4], pls[5]]):
                     jobs.append((pid, "c08", label, t, gens[0], dict(pl, history=h)))
     if tr == "thorough":
         # thorough: running out of space in the first chunk is explored (no roomy assumption) for types without
@@ -403,6 +403,9 @@ def main(pid):
         return rep.finish()
     results = run_parallel(run_sym, jobs, fallback=lambda job: _timeout_result(job, "no result before the check's deadline (worker lost?)"))
     slow = sorted(results, key=lambda r: -r["wall"])[:3]
+    for r in results[:: max(1, len(results) // 6)][:6]:
+        j = r["job"]
+        rep.samples.append({"case": f"scenario {j[1]} on type {j[2]}", "value_sample": j[4], "placement_and_scenario": j[5], "feasible_paths(placement classes)": r["paths"], "obligations": r["obligations"], "discharged": r["discharged"], "solver_queries": r["queries"]})
     for res in results:
         rep.add_engine_result(res)
         job = res["job"]
